@@ -845,12 +845,13 @@ def gen_C11(rng, tier):
                     evs.append("set:" + cur)
                 elif r < 0.90:
                     c2 = rng.choice([cur, rng.choice("PVA") + mkf(rng)])
-                    evs.append("fol:" + rng.choice(["S@%d@%s" % (t, c2), "N", "E1"]))
+                    evs.append("fol:" + rng.choice(["S@%d@%s" % (t, c2), "S@%d@%s" % (rng.choice([t, 0, -5, t - rng.randint(1, 10 ** 9)]), c2), "N", "E1", "EN"]))
                     if True:
                         pass
                 elif r < 0.94:
                     c2 = rng.choice([cur, rng.choice("PVA") + mkf(rng)])
-                    evs.append("cs:" + rng.choice(["S@%d@%s" % (t, c2), "N", "E2"]))
+                    # the followed command's OWN timestamp is irrelevant to the controller (it is `set` whenever present): also earlier / repeated stamps
+                    evs.append("cs:" + rng.choice(["S@%d@%s" % (t, c2), "S@%d@%s" % (rng.choice([t, 0, -5, t - rng.randint(1, 10 ** 9)]), c2), "N", "E2", "EN"]))
                 elif r < 0.96:
                     evs.append("unfol")
                 elif r < 0.98:
